@@ -10,6 +10,7 @@ import (
 	"math/big"
 	"runtime/debug"
 	"sort"
+	"sync"
 	"time"
 
 	"github.com/idena-network/idena-go/blockchain"
@@ -45,7 +46,14 @@ type Node struct {
 	Cfg   *config.Config
 	Sec   *secstore.SecStore
 	VC    *ceremony.ValidationCeremony // nil unless attached
+	Real  bool                         // VC is the real ceremony object driven by the node's event bus (RealAttach)
 }
+
+// RealAttach, when set by a harness binary whose overlay exports it, wires the REAL ceremony object (NewValidationCeremony +
+// Initialize, as node.StartWithHeight does) instead of the synchronous FxAttach stand-in; RealAfterAdd runs after every
+// inserted block (waits for the asynchronous flip lottery).
+var RealAttach func(n *Node) *ceremony.ValidationCeremony
+var RealAfterAdd func(n *Node, b *types.Block)
 
 func Dna(n int64) *big.Int { return new(big.Int).Mul(big.NewInt(n), common.DnaBase) }
 
@@ -104,6 +112,26 @@ func MkCfg(o Opts) *config.Config {
 	return cfg
 }
 
+// the ipfs store of a node lives as long as its database (a restart over the same database finds the block bodies again)
+var ipfsStores = map[dbm.DB]ipfs.Proxy{}
+var ipfsMu sync.Mutex
+
+func ipfsFor(db dbm.DB) (p ipfs.Proxy) {
+	defer func() {
+		if recover() != nil { // a database value that cannot be a map key
+			p = ipfs.NewMemoryIpfsProxy()
+		}
+	}()
+	ipfsMu.Lock()
+	defer ipfsMu.Unlock()
+	if q, ok := ipfsStores[db]; ok {
+		return q
+	}
+	q := ipfs.NewMemoryIpfsProxy()
+	ipfsStores[db] = q
+	return q
+}
+
 // Start replicates node.StartWithHeight on an injected database: NewAppState, NewTxPool, NewOfflineDetector,
 // NewBlockchain, InitializeChain, appState.Initialize(head) else Initialize(0), EnsureIntegrity, txPool.Initialize.
 // A panic during start-up is returned as an error (C09 treats it as a failed start).
@@ -126,7 +154,7 @@ func Start(db dbm.DB, nodeKey *ecdsa.PrivateKey, cfg *config.Config, attachCerem
 	ks := keystore.NewKeyStore("./testdata", keystore.StandardScryptN, keystore.StandardScryptP)
 	sm, _ := subscriptions.NewManager("./testdata2")
 	up := upgrade.NewUpgrader(cfg, app, db)
-	chain := blockchain.NewBlockchain(cfg, db, txPool, app, ipfs.NewMemoryIpfsProxy(), ss, bus, offline, ks, sm, up)
+	chain := blockchain.NewBlockchain(cfg, db, txPool, app, ipfsFor(db), ss, bus, offline, ks, sm, up)
 	if e := chain.InitializeChain(); e != nil {
 		return nil, fmt.Errorf("InitializeChain: %v", e)
 	}
@@ -142,7 +170,11 @@ func Start(db dbm.DB, nodeKey *ecdsa.PrivateKey, cfg *config.Config, attachCerem
 	n = &Node{DB: db, Chain: chain, App: app, Pool: txPool, Bus: bus, Key: nodeKey,
 		Addr: crypto.PubkeyToAddress(nodeKey.PublicKey), Cfg: cfg, Sec: ss}
 	if attachCeremony {
-		n.VC = ceremony.FxAttach(chain, app, db, cfg, ss)
+		if RealAttach != nil {
+			n.VC, n.Real = RealAttach(n), true
+		} else {
+			n.VC = ceremony.FxAttach(chain, app, db, cfg, ss)
+		}
 	}
 	return n, nil
 }
@@ -171,8 +203,11 @@ func (n *Node) Add(b *types.Block) (err error) {
 	if err := n.Chain.AddBlock(b, nil, collector.NewStatsCollector()); err != nil {
 		return err
 	}
-	if n.VC != nil {
+	if n.VC != nil && !n.Real {
 		n.VC.FxOnBlock(b)
+	}
+	if n.Real && RealAfterAdd != nil {
+		RealAfterAdd(n, b)
 	}
 	return nil
 }
@@ -254,6 +289,11 @@ var DefaultStates = []state.IdentityState{state.Verified, state.Newbie, state.Hu
 // NewWorld: key 0 is the god address (Verified, funded); keys 1..nUsers get DefaultStates cyclically, funds and stakes;
 // `dummies` extra Verified identities without keys raise the network size (fees and contract minimum stake scale with 1/N).
 func NewWorld(seed int64, nUsers, dummies int, t0 time.Time) *World {
+	return NewWorldStates(seed, nUsers, dummies, t0, state.Verified, DefaultStates)
+}
+
+// NewWorldStates: as NewWorld with a chosen genesis state of the god identity and of the users (cyclically).
+func NewWorldStates(seed int64, nUsers, dummies int, t0 time.Time, god state.IdentityState, states []state.IdentityState) *World {
 	w := &World{Seed: seed, T0: t0}
 	alloc := map[common.Address]config.GenesisAllocation{}
 	for i := 0; i <= nUsers; i++ {
@@ -262,9 +302,9 @@ func NewWorld(seed int64, nUsers, dummies int, t0 time.Time) *World {
 		w.Keys = append(w.Keys, k)
 		w.Addrs = append(w.Addrs, a)
 		if i == 0 {
-			alloc[a] = config.GenesisAllocation{Balance: Dna(100000), Stake: Dna(100), State: uint8(state.Verified)}
+			alloc[a] = config.GenesisAllocation{Balance: Dna(100000), Stake: Dna(100), State: uint8(god)}
 		} else {
-			alloc[a] = config.GenesisAllocation{Balance: Dna(100000), Stake: Dna(int64(i * 5)), State: uint8(DefaultStates[(i-1)%len(DefaultStates)])}
+			alloc[a] = config.GenesisAllocation{Balance: Dna(100000), Stake: Dna(int64(i * 5)), State: uint8(states[(i-1)%len(states)])}
 		}
 	}
 	for i := 0; i < dummies; i++ {
@@ -338,6 +378,14 @@ func (s *Sender) Send(n *Node, i int, tx *types.Transaction) (*types.Transaction
 		s.nonce[i]++
 	}
 	return stx, err
+}
+
+// Resync forgets the locally counted nonces of key i (its pending transactions were dropped from the pool).
+func (s *Sender) Resync(n *Node, i int) {
+	s.nonce[i] = 0
+	if n.App.State.GetEpoch(s.W.Addrs[i]) == n.App.State.Epoch() {
+		s.nonce[i] = n.App.State.GetNonce(s.W.Addrs[i])
+	}
 }
 
 func OnlineTx(online bool) *types.Transaction {
